@@ -90,7 +90,7 @@ def cases(tier, seed):
                             yield dict(kind="scatter", region=ri, size=size, seed=sd, proj=proj, extra=extra, inferred=inferred)
     for nx in (1, 2):
         yield dict(kind="extra_name", nx=nx)
-    for est in ("Trend", "KNeighbors", "Chain", "Vector", "CheckerBoard"):
+    for est in ("Trend", "KNeighbors", "Chain", "ChainReduce", "Vector", "CheckerBoard"):
         for spec in (dict(shape=[3, 4]), dict(shape=[2, 5]), dict(spacing=[1.0, 0.5])):
             for proj in ("none", "rot"):
                 yield dict(kind="real", est=est, spec=spec, proj=proj)
@@ -512,6 +512,9 @@ def run(case, rec):
             est, data = vd.KNeighbors(k=1), d
         elif name == "Chain":
             est, data = vd.Chain([("t", vd.Trend(1)), ("k", vd.KNeighbors(k=2))]), d
+        elif name == "ChainReduce":
+            # the block means lie strictly inside the data's bounding box: the default region must still be that of the fitted data
+            est, data = vd.Chain([("r", vd.BlockReduce(np.mean, spacing=2.0)), ("t", vd.Trend(1))]), d
         else:
             est, data = vd.Vector([vd.Trend(1), vd.KNeighbors(k=1)]), (d, -2.0 * d + e)
         if raised(call(rec, est.fit, (e, n), data)):
@@ -541,6 +544,13 @@ def run(case, rec):
                         bad = (i, j, float(vals[i, j]), float(p))
             rec.check(bad is None, "%s grid value at %s differs from predict at that node: %s" % (name, bad[:2] if bad else "", bad))
         rec.check(ds.attrs.get("metadata") == "Generated by " + repr(est), "metadata")
+        sc_ = call(rec, est.scatter, size=4, random_state=2)
+        if raised(sc_):
+            rec.check(False, "scatter raised %r" % (sc_,))
+        else:
+            pts = vd.scatter_points((0.0, 4.0, 0.0, 3.0), 4, random_state=2)
+            rec.check(np.array_equal(sc_["easting"].values, pts[0]) and np.array_equal(sc_["northing"].values, pts[1]),
+                      "scatter() without a region does not use the bounding box of the fitted data")
         rec.cls("real/" + name)
         return
     raise ValueError(kind)
